@@ -34,6 +34,8 @@ def run(rep):
     import c03, c06
     rep.guard(c03.t4, rep, w)   # every encoding limit is refused on its exceeding side (a dropped limit error lets truncated operands through)
     rep.guard(c06.s2, rep, w)   # a captured local leaves the stack through CloseUpvalue on every exit path: the closure keeps naming that variable
+    import c09
+    rep.guard(c09.f8, rep, w, 'C04')   # the stack height after Fiber.call / Fiber.yield must not depend on the argument's value
 
 
 # ---- VM side: bytes consumed ----------------------------------------------------------------------------------
@@ -881,10 +883,26 @@ def b5(rep, w):
             raise Broken('C04', 'anchor', 'constant %s not found' % n)
         return v
     lm, um, fm = const('yarel::common::LOCALS_MAX'), const('yarel::common::UPVALUES_MAX'), const('yarel::common::FRAMES_MAX')
-    sm = const('yarel::object::STACK_MAX')
+    # the capacity of the value stack: the const argument of ObjFiber's Stack<Value, N> field, wherever that constant is defined
+    import roles
+    sm = None
+    for fd in c.adts['yarel::object::ObjFiber']['variants'][0]['fields']:
+        if fd['n'] == roles.resolve(w)['stack']:
+            cargs = c.ty(fd['t']).get('c') or []
+            if cargs:
+                nm = str(cargs[0]).strip('{} ').rsplit('::', 1)[-1]
+                if nm.isdigit():
+                    sm = int(nm)
+                else:
+                    hits = [v for k_, v in c.consts.items() if k_.rsplit('::', 1)[-1] == nm and 'v' in v]
+                    if len(hits) == 1:
+                        sm = hits[0]['v']
+    if sm is None:
+        raise Broken('C04', 'anchor', 'capacity of the value stack (const argument of ObjFiber.stack) not found')
     r.check(lm <= 256, 'LOCALS_MAX = %d <= 256' % lm, 'local slots are one-byte operands but LOCALS_MAX = %d' % lm)
     r.check(um <= 256, 'UPVALUES_MAX = %d <= 256' % um, 'capture indices are one-byte operands but UPVALUES_MAX = %d' % um)
-    r.check(sm == lm * fm, 'STACK_MAX = LOCALS_MAX x FRAMES_MAX = %d' % sm, 'STACK_MAX %d != %d x %d' % (sm, lm, fm))
+    r.check(sm >= lm * fm, 'value-stack capacity %d >= LOCALS_MAX x FRAMES_MAX' % sm, 'the value stack holds %d slots but %d frames of up to %d locals each are allowed (%d): deep recursion of functions '
+            'with many locals runs past the stack (checked builds panic, optimised builds write beyond the allocation)' % (sm, fm, lm, lm * fm))
 
     def compares_with(path, value, ops=('Eq', 'Ge', 'Gt')):
         f = w.require_fn(path, 'C04')
